@@ -166,6 +166,7 @@ type c19Round struct {
 	NrObjects int               `json:"nr_channel_objects"`
 	Sample    [2]string         `json:"sample,omitempty"`
 	Master    string            `json:"master,omitempty"`
+	Slow      string            `json:"slow,omitempty"`
 }
 
 // c19Child: rounds of concurrent uploads; one JSON line per round on stdout.
@@ -326,6 +327,7 @@ func c19Child(args []string) {
 			cancel()
 			os.RemoveAll(dir)
 		}
+		rr.Slow = c19SlowBody(r, filepath.Join(work, fmt.Sprintf("r%d-slow", round)))
 		b, _ := json.Marshal(rr)
 		w.Write(b)
 		w.WriteByte('\n')
@@ -483,6 +485,9 @@ func genC19(c *Ctx) {
 						c.Violate("upload-status", fmt.Sprintf("%d concurrent uploads answered %s (all answered 200 sequentially)", v, k), []string{op}, nil)
 					}
 				}
+				if rr.Slow != "" {
+					c.Violate("slow-upload", rr.Slow, []string{op + " # upload opened before the channel start, body delivered after it"}, nil)
+				}
 				if rr.Master != "" {
 					c.Violate("registration", rr.Master, []string{op}, nil)
 				}
@@ -518,4 +523,131 @@ func genC19(c *Ctx) {
 			}
 		}
 	}
+}
+
+
+// gatedBody is a request body whose first Read blocks until it is released; entered is closed when the handler asks
+// for the first byte.
+type gatedBody struct {
+	r       *bytes.Reader
+	entered chan struct{}
+	release chan struct{}
+	once    sync.Once
+}
+
+func (g *gatedBody) Read(p []byte) (int, error) {
+	g.once.Do(func() {
+		close(g.entered)
+		<-g.release
+	})
+	return g.r.Read(p)
+}
+
+// c19SlowBody: an upload that is opened before the channel starts and delivers its data afterwards (a sender with
+// chunked transfer opens the request before the segment exists).  The channel is a renumbered one (incoming numbers and
+// times do not follow time / duration), so its start changes how uploads are numbered: in either sequential order of
+// "audio segment 1" and "video segment 1" the audio upload is accepted and stored.
+func c19SlowBody(r *Rng, dir string) string {
+	_ = os.MkdirAll(dir, 0o755)
+	defer os.RemoveAll(dir)
+	ctx, cancel := context.WithCancel(context.Background())
+	defer cancel()
+	h, err := recv.VerifNewRouter(ctx, dir, 30, 0, nil, false)
+	if err != nil {
+		return ""
+	}
+	vInit, e1 := readAsset("testpic_2s/V300/init.mp4")
+	aInit, e2 := readAsset("testpic_2s/A48/init.mp4")
+	if e1 != nil || e2 != nil {
+		return ""
+	}
+	shifted := r.Intn(4) != 0
+	seq0, inSeq0, off := uint64(r.Pick(1, 101, 5000)), uint32(0), uint64(0)
+	inSeq0 = uint32(seq0)
+	if shifted {
+		off = uint64(r.Pick(9000, 45000, 90000))
+		inSeq0 = uint32(r.Pick(8090, 300, 77))
+	}
+	seg := func(src string, ts uint64, k int) []byte {
+		b, err := readAsset(fmt.Sprintf(src, k%4+1))
+		if err != nil {
+			return nil
+		}
+		f, err := mp4.DecodeFile(bytes.NewReader(b))
+		if err != nil {
+			return nil
+		}
+		fr := f.Segments[0].Fragments[0]
+		fr.Moof.Mfhd.SequenceNumber = inSeq0 + uint32(k)
+		dt := (seq0+uint64(k))*2*ts + off*ts/90000
+		if ts == 48000 {
+			dt = dt / 1024 * 1024
+		}
+		fr.Moof.Traf.Tfdt.SetBaseMediaDecodeTime(dt)
+		var buf bytes.Buffer
+		_ = f.Segments[0].Encode(&buf)
+		return buf.Bytes()
+	}
+	what := fmt.Sprintf("channel with segments from %d (incoming numbers from %d, time offset %d ticks): ", seq0, inSeq0, off)
+	for _, u := range []c19Upload{{"/upload/s/v0/init.cmfv", vInit}, {"/upload/s/a0/init.cmfa", aInit},
+		{fmt.Sprintf("/upload/s/v0/%d.cmfv", inSeq0), seg("testpic_2s/V300/%d.m4s", 90000, 0)}, {fmt.Sprintf("/upload/s/a0/%d.cmfa", inSeq0), seg("testpic_2s/A48/%d.m4s", 48000, 0)}} {
+		if code, p := c19Put(h, u); code >= 300 || p != "" {
+			return ""
+		}
+	}
+	gb := &gatedBody{r: bytes.NewReader(seg("testpic_2s/A48/%d.m4s", 48000, 1)), entered: make(chan struct{}), release: make(chan struct{})}
+	type res struct {
+		code int
+		pan  string
+	}
+	done := make(chan res, 1)
+	go func() {
+		req := httptest.NewRequest("PUT", fmt.Sprintf("/upload/s/a0/%d.cmfa", inSeq0+1), gb)
+		req.ContentLength = -1
+		rec := httptest.NewRecorder()
+		var pan string
+		func() {
+			defer func() {
+				if r := recover(); r != nil {
+					pan = fmt.Sprint(r)
+				}
+			}()
+			h.ServeHTTP(rec, req)
+		}()
+		done <- res{rec.Code, pan}
+	}()
+	select {
+	case <-gb.entered:
+	case rr := <-done:
+		return fmt.Sprintf("%sthe audio upload returned %d before its body was read", what, rr.code)
+	case <-time.After(2 * time.Second):
+		close(gb.release)
+		return ""
+	}
+	code, p := c19Put(h, c19Upload{fmt.Sprintf("/upload/s/v0/%d.cmfv", inSeq0+1), seg("testpic_2s/V300/%d.m4s", 90000, 1)})
+	time.Sleep(30 * time.Millisecond) // the channel goroutine processes the master's second segment: the channel starts
+	close(gb.release)
+	var ar res
+	select {
+	case ar = <-done:
+	case <-time.After(3 * time.Second):
+		return what + "the audio upload whose body arrives after the channel start does not return"
+	}
+	if code >= 300 || p != "" {
+		return fmt.Sprintf("%svideo segment 1 answered %d %s", what, code, p)
+	}
+	if ar.code >= 300 || ar.pan != "" {
+		return fmt.Sprintf("%saudio segment 1, opened before the master's second segment and delivered after it, is answered %d %s (in both sequential orders it is accepted)", what, ar.code, ar.pan)
+	}
+	ents, _ := os.ReadDir(filepath.Join(dir, "s", "a0"))
+	n := 0
+	for _, e := range ents {
+		if regexp.MustCompile(`^\d+\.cmfa$`).MatchString(e.Name()) {
+			n++
+		}
+	}
+	if n != 2 {
+		return fmt.Sprintf("%sboth audio uploads were answered 2xx but %d audio segments are stored", what, n)
+	}
+	return ""
 }
